@@ -21,8 +21,9 @@ var usageToBigOp = map[string][]string{
 
 func c32(r *core.Run) {
 	r.Explanation = "Decided clauses: (R1) operation ↔ estimate coherence: wherever a function charges one of the per-operation big-integer estimates (common.New{Plus,Minus,Mul,Div,Mod,Bitwise…,Negate}BigIntMemoryUsage), the big.Int operation it performs is the matching one " +
-		"(Add, Sub, Mul, Quo/Div, Rem/Mod, Or, Xor, And, Lsh, Rsh, Neg) and the estimate receives the operation's operands in the same order; (R2) in every New…FromBigInt(gauge, usage, constructor) helper the memory is charged before the constructor closure (which allocates) is called."
-	r.NotDecided = "the closed-form word-count estimates themselves (that they are upper bounds of big.Int's allocation)."
+		"(Add, Sub, Mul, Quo/Div, Rem/Mod, Or, Xor, And, Lsh, Rsh, Neg) and the estimate receives the operation's operands in the same order; (R2) in every New…FromBigInt(gauge, usage, constructor) helper the memory is charged before the constructor closure (which allocates) is called; " +
+		"(R3) BOUND: every path of every closed-form estimate in common/metering.go is shown, symbolically and for all operand sizes, to be at least the size of the result of the operation it is charged for (|a|, |b| word lengths, val(b) shift amount; max/min/floor eliminated by case analysis, linear forms compared coefficient-wise); unprovable paths are violations unless reviewed."
+	r.NotDecided = "intermediate allocations of math/big beyond the result value; the fixed-size 128/256-bit integers (constant-size estimates); the specification of result sizes of math/big is trusted."
 	w := r.W
 	n := 0
 	for _, rel := range []string{"values", "interpreter"} {
@@ -142,4 +143,5 @@ func c32(r *core.Run) {
 		r.Check(ok, "R2.order", key, fn.Pos(), "memory is charged before the big.Int is computed", "the big integer is computed before (or without) charging its memory: an over-limit allocation happens before the limit error")
 	}
 	r.Floor("R2.order", 8)
+	c32Bounds(r)
 }
